@@ -110,6 +110,9 @@ class OdeModel:
                     return callee, f_.value
             return None
         func = inline_stmt_calls(_copy.deepcopy(self.func), _stmt_resolver)
+        # one loop over a concatenation (`for sign, i in chain(zip(repeat(" - "), R), zip(repeat(" + "), P))`) is the loops it abbreviates
+        from .normalize import split_concat_loops
+        func = split_concat_loops(func)
         self.flow = Flow(func, FILE, proc_resolver=_resolver, resolver=_pure_resolver)
         fl = self.flow
         self._expand_built_lists(fl)
@@ -140,7 +143,16 @@ class OdeModel:
         """A list built by an accumulation loop with intermediate statements and read afterwards (`dterms = []; for r in ..: c =
         copy; c.remove(..); dterms.append((r, term))` ... `for r, t in dterms:`) is read as the comprehension it is equal to
         (valueflow.summarise_appends), in every index, value, guard and loop domain of this function's facts."""
-        from .valueflow import summarise_appends
+        from .valueflow import summarise_appends, summarise_memos, expand_memos
+        # ... and a read of a memo table (`d = {}; for r in ..: if r not in d: d[r] = g(r)` ... `d[r2]`) as the value stored there
+        memos = summarise_memos(fl)
+        if memos:
+            for f in fl.facts:
+                f.index = expand_memos(f.index, memos) if f.index is not None else None
+                f.value = expand_memos(f.value, memos) if f.value is not None else None
+                f.guards = tuple((expand_memos(c, memos), p_) for c, p_ in f.guards)
+            for nm, lst in fl.assigns.items():
+                lst[:] = [(expand_memos(v, memos), loops, guards, line, seq) for v, loops, guards, line, seq in lst]
         for _ in range(3):
             sm = summarise_appends(fl)
             if not sm:
